@@ -316,6 +316,7 @@ func (e *Enc) sel(v View, heap string, loc Loc) string {
 		}
 	}
 	e.selMemo[key] = out
+	e.undo = append(e.undo, func() { delete(e.selMemo, key) })
 	return out
 }
 
@@ -332,6 +333,10 @@ func (e *Enc) refBound(heap, term, ub string) {
 	case "Slice":
 		e.assume("(< (sarr " + term + ") " + ub + ")")
 		e.assume(sliceWF(term))
+	case "Iface":
+		// a pointer held in an interface cell of the heap is older than the heap's allocation bound
+		e.d.decl("ptrtag", "(Int) Bool")
+		e.assume(fmt.Sprintf("(=> (ptrtag (itag %s)) (< (ival %s) %s))", term, term, ub))
 	}
 }
 
